@@ -478,6 +478,9 @@ func runCheck(o CheckOpts) (code int) {
 				fmt.Println("  NOTE:", n)
 			}
 		}
+		for _, n := range closureNotes {
+			fmt.Println("  NOTE:", n)
+		}
 	}
 	if ev.Obligations == 0 && violations == 0 {
 		fmt.Printf("VIOLATION property=%s replay=none reason=no-obligations-generated no-failing-input-found\n", o.Prop)
